@@ -452,6 +452,14 @@ class Builder:
             if special:
                 m["fields"].extend(copy.deepcopy(special))
             self.fill(m, f"{pkg}.{m['name']}", fileidx, reserve=())
+            if self.p.get("twin_required_message_fields"):
+                for fld in list(m["fields"]):
+                    if fld["type"] == "message" and fld.get("required") and not fld.get("repeated") and _p(self.draw, 0.4):
+                        twin = {k: v for k, v in fld.items() if k not in ("comment", "oneof")}
+                        twin["name"] = fld["name"] + "_twin"
+                        twin["number"] = _free_number(m["fields"])
+                        m["fields"].append(twin)
+                        break
             file["messages"].append(m)
         finally:
             self.cur_pkg = saved
@@ -461,7 +469,12 @@ class Builder:
     def method(self, file, pkg, names, fileidx, mnames, host):
         verb = self.d(st.sampled_from(VERBS))
         noun = self.d(st.sampled_from(TYPE_WORDS))
-        if self.coin("p_keyword_rpc"):
+        seen = [n for n in getattr(self, "_rpc_names_seen", []) if n.lower() not in mnames.used]
+        if seen and self.p.get("p_twin_rpc") and self.coin("p_twin_rpc"):
+            # the short name of an RPC of another service (the two are distinct methods with distinct requests)
+            name = self.d(st.sampled_from(seen))
+            mnames.used.add(name.lower())
+        elif self.coin("p_keyword_rpc"):
             name = self.d(st.sampled_from(KEYWORD_RPCS + TRANSPORT_COLLIDING_RPCS))
             if name.lower() in mnames.used:
                 name = mnames.fresh(verb + noun)
@@ -470,6 +483,8 @@ class Builder:
         else:
             name = mnames.fresh(verb + noun)
         meth = {"name": name}
+        if self.p.get("p_twin_rpc"):
+            self._rpc_names_seen = sorted(set(getattr(self, "_rpc_names_seen", [])) | {name})
         kind = "plain"
         if self.coin("p_paged"):
             kind = "paged"
@@ -733,18 +748,29 @@ class Builder:
                 dep_file["services"].append({"name": "DepService", "host": "dep.example.com", "methods": [
                     {"name": "DepCall", "input": f".{dpkg}.{dep_file['messages'][0]['name']}", "output": f".{dpkg}.{dep_file['messages'][0]['name']}"}]})
         svc_names = None
+        forced = {}
+        if self.p.get("odd_file_names") and nfiles >= 2 and _p(self.draw, 0.2):
+            # two files of one directory whose names become equal once sanitised; either order
+            pair = self.d(st.sampled_from([("book_types", "book.types"), ("book.types", "book_types"), ("book_types", "book-types"),
+                                           ("a.b", "a_b"), ("x-y", "x.y")]))
+            forced = {nfiles - 2: pair[0], nfiles - 1: pair[1]}
         for fi in range(nfiles):
             # unversioned packages with sub-packages are a documented input error of the generator
-            sub = fi < nfiles - 1 and self.versioned and self.coin("p_subpackage")   # the last file stays in the root package
+            sub = fi < nfiles - 1 and self.versioned and self.coin("p_subpackage") and fi not in forced   # the last file stays in the root package
             pkg = root + (".sub" + ("" if self.d(st.booleans()) else "two") if sub else "")
-            if self.p.get("odd_file_names") and _p(self.draw, 0.5):
+            if fi in forced:
+                base = forced[fi]
+                fnames.used.add(base.lower())
+            elif self.p.get("odd_file_names") and _p(self.draw, 0.5):
+                # includes names that become equal once sanitised (book_types / book.types / book-types)
                 base = fnames.fresh(self.d(st.sampled_from(["foo.bar", "my-file", "File2", "MyTypes", "class", "metadata", "import",
-                                                            "retry", "request", "timeout", "a1_b2", "x.y.z", "lib_v1", "types_"])))
+                                                            "retry", "request", "timeout", "a1_b2", "x.y.z", "lib_v1", "types_",
+                                                            "book_types", "book.types", "book-types", "book_types", "book.types"])))
             else:
                 # now and then a proto file named like a module the emitted client imports (module-name collisions)
                 pool = ["lib", "types", "resources", "service", "common", "admin"]
                 if _p(self.draw, self.p.get("p_colliding_file_name", 0.08)):
-                    pool = ["operation", "operation_async", "pagers", "retries", "exceptions", "status", "empty", "timestamp", "field_mask", "operations"]
+                    pool = ["operation", "operation_async", "status", "empty", "timestamp", "field_mask", "operations", "policy"]
                 base = fnames.fresh(self.d(st.sampled_from(pool)))
             file = {"name": pkg.replace(".", "/") + f"/{base}.proto", "package": pkg, "messages": [], "enums": [], "services": []}
             names = self.ns(pkg)
